@@ -142,12 +142,44 @@ def rule_r3(rep, program: Program):
 INT_UNSAFE_FUNCS = {"np.reciprocal", "np.floor_divide", "np.power", "np.float_power_int", "np.invert"}
 
 
-def rule_r5(rep, program: Program):
+def rule_r7(rep, program: Program):
+    """The gradients of a block-diagonal matrix are reported "in the structure of the parameter": one entry per block the
+    caller passed.  That holds only if the constructor keeps the caller's blocks as they are - merging nested block
+    matrices, dropping or reordering blocks changes the length / nesting of every gradient tuple."""
+    import ast
+
+    from ..model import expand_locals, is_self_attr, norm, single_assignment_locals
+
+    r = rep.rule("R7", "block-structured matrices store the blocks exactly as given (gradient tuples have the structure of the parameter)", floor=3)
+    for k in program.subclasses("Matrix"):
+        init = k.methods.get("__init__")
+        if init is None or "blocks" not in init.params:
+            continue
+        stores = [a for a in ast.walk(init.node) if isinstance(a, ast.Assign) and any(is_self_attr(t) and t.attr in ("_blocks", "blocks") for t in a.targets)]
+        rebinds = [a for a in ast.walk(init.node) if isinstance(a, (ast.Assign, ast.AugAssign)) and any(isinstance(t, ast.Name) and t.id == "blocks" for t in (a.targets if isinstance(a, ast.Assign) else [a.target]))]
+        passes_up = [c for c in ast.walk(init.node) if isinstance(c, ast.Call) and norm(c.func).endswith("__init__") and any(norm(a) in ("blocks", "tuple(blocks)", "list(blocks)") for a in list(c.args) + [kw.value for kw in c.keywords])]
+        r.inst({"class": k.name, "stores": [norm(a)[:60] for a in stores], "re-binds the parameter": [norm(a)[:60] for a in rebinds], "hands the blocks to the base constructor": bool(passes_up)})
+        for a in rebinds:
+            v = a.value if isinstance(a, ast.Assign) else None
+            if v is not None and norm(v) in ("tuple(blocks)", "list(blocks)"):
+                continue
+            r.violate(PROP, f"{k.name}.__init__:blocks-rebuilt:{norm(a)[:40]}", f"the constructor re-builds the sequence of blocks (`{norm(a)[:70]}`) before storing it: the stored blocks are not the caller's blocks one for one, so gradient tuples no longer have the structure of the parameter", node=a, file=init.file)
+        for a in stores:
+            v = expand_locals(a.value, single_assignment_locals(init.node))
+            if norm(v) not in ("tuple(blocks)", "blocks", "list(blocks)"):
+                r.violate(PROP, f"{k.name}.__init__:blocks-stored-as:{norm(v)[:40]}", f"the blocks are stored as `{norm(v)[:70]}` rather than as the sequence given", node=a, file=init.file)
+        if not stores and not passes_up:
+            raise AnalysisError(f"{k.name}.__init__: neither stores the blocks nor hands them to a base constructor")
+    return r
+
+
+def rule_r5(rep, program: Program, prop=PROP, rule="R5"):
     """Parameters are stored as given, so an integer array is a legal parameter.  The gradient members
     must use operations whose result does not depend on the parameter's dtype: true division and float
     exponents promote, np.reciprocal / floor division / negative integer powers follow integer rules
     (np.reciprocal(np.array([2])) == [0])."""
-    r = rep.rule("R5", "gradient members use dtype-promoting arithmetic on the stored parameters (no np.reciprocal, //, negative integer powers on arrays that may be integer)", floor=20)
+    PROP = prop  # noqa: N806
+    r = rep.rule(rule, "gradient members use dtype-promoting arithmetic on the stored parameters (no np.reciprocal, //, negative integer powers on arrays that may be integer)", floor=20)
 
     def float_forced(e):
         """the operand is certainly floating point: a float constant takes part, or an explicit cast"""
@@ -407,3 +439,4 @@ def run(rep, program: Program, tier: str) -> None:
     rep.isolate(rule_r4, rep, program)
     rep.isolate(rule_r5, rep, program)
     rep.isolate(rule_r6, rep, program)
+    rep.isolate(rule_r7, rep, program)
